@@ -62,7 +62,7 @@ class OrderedSet:
         return len(self.difference(s)) == 0
 
     def issuperset(self, s):
-        return len(self.intersection(s)) == len(s)
+        return all(k in self for k in s)
     
     def remove(self, k):
         self.d.pop(k)
@@ -99,13 +99,13 @@ class OrderedSet:
         return self.issubset(s)
     
     def __lt__(self, s):
-        return self.issubset(s) and (len(self) != len(s))
+        return self.issubset(s) and not self.issuperset(s)
 
     def __ge__(self, s):
         return self.issuperset(s)
 
     def __gt__(self, s):
-        return self.issuperset(s) and (len(self) != len(s))
+        return self.issuperset(s) and not self.issubset(s)
 
     def __or__(self, s):
         return self.union(s)
